@@ -218,7 +218,8 @@ SentOf(d) ==
 
 DoCode(A, k, a, b, cc, d) ==
   IF ~Ok(A) THEN A
-  ELSE [A EXCEPT !.log = Append(@, LogE(k, a, b, cc, 0, A.S.x, A.S.time)),
+  ELSE [A EXCEPT !.log = Append(@, LogE(k, a, b, cc, IF a % 2 = 0 THEN Cardinality(A.S.conf) ELSE 0 - 1,
+                                                A.S.x, A.S.time)),   \* d: what active() says here (every other fragment looks)
                  !.S.x = @ + d.incx, !.clk = @ + d.tick,
                  !.msent = @ \o SentOf(d)]
 
